@@ -202,7 +202,14 @@ public:
 
     GaloisFieldDict &operator+=(const integer_class &other)
     {
-        if (dict_.empty() or other == integer_class(0))
+        if (dict_.empty()) {
+            integer_class temp;
+            mp_fdiv_r(temp, other, modulo_);
+            if (temp != integer_class(0))
+                dict_.push_back(temp);
+            return down_cast<GaloisFieldDict &>(*this);
+        }
+        if (other == integer_class(0))
             return down_cast<GaloisFieldDict &>(*this);
         integer_class temp = dict_[0] + other;
         mp_fdiv_r(temp, temp, modulo_);
